@@ -77,3 +77,138 @@ Theorem C08_drift_kick_slice :
     apply_x n 1 it (updateSM n it (drift_offsets (K:=QcF) n f)) (fun i => D (b * n * n + i)) (didx n 0 x y).
 Proof. exact drift_kick_slice. Qed.
 Print Assumptions C08_drift_kick_slice.
+
+(** ** Run level (family run).  The wake kick's own potential, and the induction over the steps of a run.
+
+    [Gen/Gen_WakeUpdate.v] (regenerated from WakePotentialMap::update, the KickMap / WakeKickMap constructors,
+    KickMap::updateSM and ElectricField's wakePotential()) and [Gen/Gen_KickIndex.v] (KickMap::apply) meet here:
+    after update(), the entry of the offset vector and the table row that apply()'s y branch reads for bunch b,
+    row x - through its generated index with the generated sharing rule min(b, _lastbunch), _lastbunch = nb-1 -
+    hold the wake potential [_wakepotential[b][x]] (position [wp_flat] in the array wakePotential() returns) and the
+    interpolation row built from it, and nothing else. *)
+From Inovesa Require Import Model.StepKinds Gen.Gen_StepOrder Model.RunKinds Gen.Gen_WakeUpdate Gen.Gen_Identity
+  Gen.Gen_KickIndex Model.Copy Model.WakeUpdate Model.Run Proofs.CopyP Proofs.WakeUpdateP Proofs.RunP Proofs.RunFPP.
+Import ListNotations.
+
+Theorem C08_wake_kick_own_potential :
+  forall n nb it (wp : Z -> Qc) b x y j,
+    valid_it it -> 0 < n -> 0 <= b < nb -> 0 <= x < n -> 0 <= j < it ->
+    let r := Z.min b (km_lastbunch nb) * wk_pd n nb + x in
+    wake_offsets n nb it wp r = wp (wp_flat nb n b x) /\
+    wake_table n nb it wp (ky_hinfo (wk_kd n nb) (wk_pd n nb) it (km_lastbunch nb) b x y j) =
+    sm_entry n it (wp (wp_flat nb n b x)) j.
+Proof. exact wake_kick_reads_own_potential. Qed.
+Print Assumptions C08_wake_kick_own_potential.
+
+(** update() in closed form: the offset vector is the wake potential on its nb*n entries (zero beyond, as the
+    constructor left it), the table is updateSM of it on the nb*n*it entries apply() can read *)
+Theorem C08_wake_update_closed_form :
+  forall n nb it (wp : Z -> Qc),
+    (forall i, wake_offsets n nb it wp i = if in_rng (nb * n) i then wp i else 0%Qc) /\
+    (0 < it -> 0 <= n -> 0 <= nb -> forall k, 0 <= k < nb * n * it -> wake_table n nb it wp k = updateSM n it wp k).
+Proof. exact (fun n nb it wp => conj (wake_offsets_spec n nb it wp) (fun Hit Hn Hnb k => wake_table_spec n nb it wp k Hit Hn Hnb)). Qed.
+Print Assumptions C08_wake_update_closed_form.
+
+(** (a) slice b of the nb-bunch run = the single-bunch run of slice b driven by bunch b's wake potentials: every
+    number of steps [k], grid size, interpolation order, RF and drift field, Fokker-Planck table reading inside its
+    energy column ([fp_inside]; Identity otherwise), every sequence of per-step wake slots [wks] (None: Identity, no
+    impedance; Some wp: the array wakePotential() returned at that step, whatever the field computed).  The step
+    applies the maps in the order GENERATED from main()'s loop body ([step_order]). *)
+Theorem C08_run_slice :
+  forall (P : run_par), valid_it (rp_it P) -> 0 < rp_n P -> fp_inside P ->
+  forall nb (wks : nat -> option (Z -> Qc)) (k : nat) (D : Z -> Qc) b i,
+    0 <= b < nb -> 0 <= i < rp_n P * rp_n P ->
+    run P nb wks k D (b * rp_n P * rp_n P + i) =
+    run P 1 (fun j => wk_slice (rp_n P) b (wks j)) k (slice (rp_n P) b D) i.
+Proof. exact run_slice. Qed.
+Print Assumptions C08_run_slice.
+
+(** (b) without impedance two bunches holding equal data hold equal data after every number of steps, and each is
+    the single-bunch run of that data *)
+Theorem C08_identical_bunches_stay_identical :
+  forall (P : run_par), valid_it (rp_it P) -> 0 < rp_n P -> fp_inside P ->
+  forall nb (k : nat) (D : Z -> Qc) b1 b2,
+    0 <= b1 < nb -> 0 <= b2 < nb ->
+    (forall i, 0 <= i < rp_n P * rp_n P -> D (b1 * rp_n P * rp_n P + i) = D (b2 * rp_n P * rp_n P + i)) ->
+    forall i, 0 <= i < rp_n P * rp_n P ->
+      run P nb no_wake k D (b1 * rp_n P * rp_n P + i) = run P nb no_wake k D (b2 * rp_n P * rp_n P + i) /\
+      run P nb no_wake k D (b1 * rp_n P * rp_n P + i) = run P 1 no_wake k (slice (rp_n P) b1 D) i.
+Proof. exact identical_bunches_stay_identical. Qed.
+Print Assumptions C08_identical_bunches_stay_identical.
+
+(** ... and with impedance as long as the field hands the two bunches equal potentials at every step *)
+Theorem C08_equal_bunches_equal_wakes_stay_equal :
+  forall (P : run_par), valid_it (rp_it P) -> 0 < rp_n P -> fp_inside P ->
+  forall nb (wks : nat -> option (Z -> Qc)) (k : nat) (D : Z -> Qc) b1 b2,
+    0 <= b1 < nb -> 0 <= b2 < nb ->
+    (forall j, (j < k)%nat -> wk_agree (rp_n P) b1 b2 (wks j) (wks j)) ->
+    (forall i, 0 <= i < rp_n P * rp_n P -> D (b1 * rp_n P * rp_n P + i) = D (b2 * rp_n P * rp_n P + i)) ->
+    forall i, 0 <= i < rp_n P * rp_n P ->
+      run P nb wks k D (b1 * rp_n P * rp_n P + i) = run P nb wks k D (b2 * rp_n P * rp_n P + i).
+Proof. exact equal_bunches_equal_wakes_stay_equal. Qed.
+Print Assumptions C08_equal_bunches_equal_wakes_stay_equal.
+
+(** (c) an empty bucket (all-zero slice) stays empty for all time, whatever the wake slots hold; and what a bucket
+    holds does not reach the other bunches: two runs handed the same wake slots whose data differ in bucket b only
+    agree on every other bunch after every number of steps *)
+Theorem C08_empty_bucket_stays_empty :
+  forall (P : run_par), valid_it (rp_it P) -> 0 < rp_n P -> fp_inside P ->
+  forall nb (wks : nat -> option (Z -> Qc)) (k : nat) (D : Z -> Qc) b i,
+    0 <= b < nb -> (forall i, 0 <= i < rp_n P * rp_n P -> D (b * rp_n P * rp_n P + i) = 0%Qc) ->
+    0 <= i < rp_n P * rp_n P -> run P nb wks k D (b * rp_n P * rp_n P + i) = 0%Qc.
+Proof. exact empty_bucket_stays_empty. Qed.
+Print Assumptions C08_empty_bucket_stays_empty.
+
+Theorem C08_other_bunches_ignore_bucket :
+  forall (P : run_par), valid_it (rp_it P) -> 0 < rp_n P -> fp_inside P ->
+  forall nb (wks : nat -> option (Z -> Qc)) (k : nat) (D D' : Z -> Qc) b b' i,
+    0 <= b' < nb -> b' <> b ->
+    (forall c j, 0 <= c < nb -> c <> b -> 0 <= j < rp_n P * rp_n P ->
+                 D (c * rp_n P * rp_n P + j) = D' (c * rp_n P * rp_n P + j)) ->
+    0 <= i < rp_n P * rp_n P ->
+    run P nb wks k D (b' * rp_n P * rp_n P + i) = run P nb wks k D' (b' * rp_n P * rp_n P + i).
+Proof. exact other_bunches_ignore_bucket. Qed.
+Print Assumptions C08_other_bunches_ignore_bucket.
+
+(** the hypothesis [fp_inside] is met by the model's own Fokker-Planck table on its documented domain (and by the
+    Identity slot): a table that read outside its energy column would couple neighbouring bunches *)
+Theorem C08_fp_table_reads_inside :
+  forall n it rf dr (e1 delta : Qc) (p : Z -> Qc) dt v lo_end hi_start,
+    fp_domain dt n lo_end hi_start ->
+    fp_inside (mkRunPar n it rf dr (Some (dt, fp_hinfo (K:=QcF) e1 delta p dt v n lo_end hi_start))).
+Proof. exact fp_inside_model. Qed.
+Print Assumptions C08_fp_table_reads_inside.
+
+(** the list program the extracted driver runs computes [run] (tie of the correspondence to the theorems) *)
+Theorem C08_run_list_computes_run :
+  forall (P : run_par), valid_it (rp_it P) -> 0 < rp_n P -> fp_inside P ->
+  forall nb (wl : list (option (list Qc))) (data : list Qc) (D : Z -> Qc),
+    all_agree (rp_n P) nb (getQ data) D ->
+    all_agree (rp_n P) nb (getQ (run_list P nb wl data))
+              (run P nb (fun j => slot (nth j wl None)) (length wl) D).
+Proof. exact run_list_correct. Qed.
+Print Assumptions C08_run_list_computes_run.
+
+(** Identity map (inc/SM/Identity.hpp; count and indices generated): bunch b of the copy is bunch b of the input *)
+Theorem C08_identity_slice :
+  forall nb n (D old old' : Z -> Qc) b i,
+    0 < n -> 0 <= b < nb -> 0 <= i < n * n ->
+    ident_apply nb n n D old (b * n * n + i) = ident_apply 1 n n (slice n b D) old' i.
+Proof. exact ident_slice. Qed.
+Print Assumptions C08_identity_slice.
+
+(** non-vacuity / computed instance: two bunches, 4x4 cells, linear interpolation, two steps in the generated order,
+    a different wake potential array in each step, the model's own 3-point Fokker-Planck table: bunch 1 of the
+    two-bunch run is the single-bunch run of bunch 1's data driven by bunch 1's potentials *)
+Example C08_run_example :
+  let ax := map (fun j => (Qcz j - Q2Qc (3 # 2))%Qc) (zrange 4) in
+  let tbl := fp_table_list 3 3 4 (Q2Qc (3 # 2)) (Q2Qc (1 # 8)) 1%Qc ax in
+  let rf := map (fun x => (Q2Qc (1 # 4) * (Q2Qc (3 # 2) - Qcz x))%Qc) (zrange 4) in
+  let dr := map (fun y => (Q2Qc (1 # 4) * (Qcz y - Q2Qc (3 # 2)))%Qc) (zrange 4) in
+  let w0 := map (fun i => Q2Qc (Qmake (i - 3) 8)) (zrange 8) in
+  let w1 := map (fun i => Q2Qc (Qmake (5 - i) 16)) (zrange 8) in
+  let d := map (fun i => Qcz ((i * i) mod 7)) (zrange 32) in
+  skipn 16 (run_driver 4 2 2 rf dr (Some (3, tbl)) [Some w0; Some w1] d)
+  = run_driver 4 1 2 rf dr (Some (3, tbl)) [Some (skipn 4 w0); Some (skipn 4 w1)] (skipn 16 d)
+  /\ run_driver 4 2 2 rf dr (Some (3, tbl)) [Some w0; Some w1] d <> d.
+Proof. vm_compute. split; [reflexivity | discriminate]. Qed.
